@@ -1,16 +1,15 @@
 """C25 concurrent senders: FIXWriter::write / write_batch lock discipline under CBMC threads (all interleavings, SC)"""
 import os, re
 from vf.core import *
-ROOTS = ['vf_w_init', 'vf_w_write', 'vf_w_write_ref', 'vf_w_write_batch', 'vf_w_execute', 'vf_tok_init', 'vf_vec_init2', 'vf_msg_eob']
-FUN = ['FIX8::FIXWriter::write(Message*,bool)', 'FIX8::FIXWriter::write(Message&)', 'FIX8::FIXWriter::write_batch', 'FIX8::f8_scoped_lock_impl<f8_spin_lock>::acquire/release/ctor/dtor',
+ROOTS = ['vf_w_init', 'vf_w_write', 'vf_w_write_ref', 'vf_w_write_batch2', 'vf_vec_init2', 'vf_msg_eob']
+FUN = ['FIX8::FIXWriter::write(Message*,bool)', 'FIX8::FIXWriter::write(Message&)', 'FIX8::FIXWriter::write_batch', 'FIX8::f8_scoped_lock_impl<f8_spin_lock> ctor/acquire/release/dtor (inlined, leaf mode)',
        'FIX8::f8_spin_lock::lock/unlock (pthread variant)', 'FIX8::Message::set_end_of_batch', 'std::vector<Message*> iteration (header code)']
-STUBS = ['Session::send_process := critical-section witness: non-atomic read then write of a shared counter, occupancy flag, records the number each message took',
-         'pthread_spin_lock/unlock := atomic test-and-set with blocking semantics (models/pthread_spin.c)', 'std::default_delete<Message> := no-op (messages are static harness objects; destroy=false is used)',
-         'Session::is_shutdown := false; f8Exception(const char*) := no-op; GlobalLogger::is_loggable := false']
+STUBS = ['f8Exception(const char*) := no-op (the "cannot send directly if pipelining" throw is not taken in the threaded model)', 'uMPMC_Ptr_Queue::push (pipelined branch of write) := asserted unreachable in the threaded model (_pmodel == pm_thread)', 'Session::send_process := critical-section witness: non-atomic read then write of a shared counter, occupancy flag, records the number each message took',
+         'pthread_spin_lock/unlock := atomic test-and-set with blocking semantics (models/pthread_spin.c)', 'destroy=false is used (messages are static harness objects)', 'leaf-mode compile (-O1, inlining on): the lock guard and the vector iterators are inlined into write/write_batch']
 
 def build(ctx):
-    shim = ctx.build_ir('c25.cpp', 'cut')
-    info = ctx.translate(shim, ROOTS, 'c25.c', stubfiles=['common.stubs', 'c25.stubs'], models=['cxx.c', 'stubs.c', 'pthread_spin.c'])
+    shim = ctx.build_ir('c25.cpp', 'leaf', extra=['-fno-access-control'])
+    info = ctx.translate(shim, ROOTS, 'c25.c', stubs={'_ZN4FIX87Session12send_processEPNS_7MessageE': 'st_send_process', '_ZN2ff15uMPMC_Ptr_Queue4pushEPv': 'st_queue_push', '_ZN4FIX811f8ExceptionC2EPKcb': 'st_exc_txt'}, stubfiles=['common.stubs'], models=['cxx.c', 'stubs.c', 'pthread_spin.c'])
     m = re.search(r'void vf_vec_init2\(struct (\S+?)\*', open(info['c']).read())
     if not m: raise Broken('C25: vector type not found in the translation')
     info['vec_t'] = m.group(1)
@@ -18,11 +17,33 @@ def build(ctx):
 
 MODES = {0: 'write(Message*,false)', 1: 'write(Message&)', 2: 'write_batch of 2'}
 def lock(ctx, name, modes, tier, info, timeout=600):
-    defs = ['VF_THREADS', 'VEC_T=' + info['vec_t'], 'VF_MAXCOPY=4'] + ['MODE%d=%d' % (i, m) for i, m in enumerate(modes)]
-    ctx.add(Harness(name, VERIF + '/harness/C25_lock.c', defines=defs, unwind=4, unwindset=['main.0:4', 'main.1:7', 'main.2:4', 'main.3:3', 'main.4:4'],
+    defs = ['VF_THREADS', 'VEC_T=' + info['vec_t'], 'VF_MAXCOPY=4', 'malloc=vf_static_alloc'] + ['MODE%d=%d' % (i, m) for i, m in enumerate(modes)]
+    ctx.add(Harness(name, VERIF + '/harness/C25_lock.c', defines=defs, unwind=4, unwindset=['main.%d:8' % i for i in range(6)],
                     timeout=timeout, mem_gb=16, functions=FUN, stubs=STUBS, tier=tier,
                     bounds='%d threads: %s; all interleavings of their shared-memory accesses under sequential consistency' % (len([m for m in modes if m != 9]), ', '.join(MODES[m] for m in modes if m != 9)),
                     desc='mutual exclusion of send_process, unique consecutive numbers, contiguous batches, exactly-once'))
+
+PROOTS = ['vf_pw_init', 'vf_tok_init', 'vf_pw_execute', 'vf_pw_write', 'vf_pw_write_batch', 'vf_pw_push_sentinel', 'vf_vec_init2', 'vf_msg_eob']
+FUN_P = ['FIX8::FIXWriter::execute (pipelined writer loop)', 'FIX8::FIXWriter::write(Message*,bool) / write_batch in pm_pipeline', 'std::unique_ptr<Message> (header code)', 'f8_scoped_spin_lock (cut mode, real)']
+STUBS_P = ['ff_unbounded_queue<Message*>::try_push/pop := abstract FIFO of message indices (C30 contract); pop blocks (assume) and is the scheduling point of the writer thread',
+           'Session::send_process := recorder (order, use-after-delete)', 'std::default_delete<Message> := recorder', 'Session::is_shutdown := false', 'f8_mutex lock/unlock := no-op (sequential harness)',
+           'pthread_spin_lock/unlock := test-and-set model (uncontended here)']
+def build_pipe(ctx):
+    shim = ctx.build_ir('c25p.cpp', 'cut')
+    info = ctx.translate(shim, PROOTS, 'c25p.c', stubfiles=['common.stubs', 'c25p.stubs'], models=['cxx.c', 'stubs.c', 'pthread_spin.c', 'c28_env.c'])
+    m = re.search(r'void vf_vec_init2\(struct (\S+?)\*', open(info['c']).read())
+    if not m: raise Broken('C25: vector type not found in the pipelined translation')
+    info['vec_t'] = m.group(1)
+    return info
+
+def pipe(ctx, name, nsingle, nbatch, tier, info, timeout=600):
+    nmsg = nsingle + 2 * nbatch
+    ctx.add(Harness(name, VERIF + '/harness/C25_pipe.c', defines=['VEC_T=' + info['vec_t'], 'NSINGLE=%d' % nsingle, 'NBATCH=%d' % nbatch, 'VF_MAXCOPY=4'], unwind=4, object_bits=14,
+                    unwindset=['main.%d:%d' % (i, nmsg + 4) for i in range(9)] + ['sched.0:%d' % (nmsg + 3), '_ZN4FIX89FIXWriter7executeERNS_28f8_thread_cancellation_tokenE.0:%d' % (nmsg + 3),
+                               '_ZN4FIX89FIXWriter11write_batchERKSt6vectorIPNS_7MessageESaIS3_EEb.0:4', '_ZN4FIX89FIXWriter11write_batchERKSt6vectorIPNS_7MessageESaIS3_EEb.1:4'],
+                    timeout=timeout, mem_gb=16, functions=FUN_P, stubs=STUBS_P, tier=tier,
+                    bounds='%d single writes and %d two-message batch(es) by any producers, then the stop sentinel; every interleaving of the pushes with the writer thread pops at operation granularity' % (nsingle, nbatch),
+                    desc='pipelined: every message queued before the sentinel is processed exactly once in queue order by the writer thread; ownership; per-producer order'))
 
 def run(ctx):
     kf = known_findings('C25'); defs = kf_defines(kf)
@@ -31,6 +52,9 @@ def run(ctx):
     lock(ctx, 'C25_lock_w_b', (0, 2, 9), 'quick', info)
     lock(ctx, 'C25_lock_b_b', (2, 2, 9), 'quick', info)
     lock(ctx, 'C25_lock_r_b', (1, 2, 9), 'quick', info)
+    pinfo = build_pipe(ctx)
+    pipe(ctx, 'C25_pipe_s1_b1', 1, 1, 'quick', pinfo)
+    pipe(ctx, 'C25_pipe_s2_b1', 2, 1, 'thorough', pinfo, 3000)
     lock(ctx, 'C25_lock_w_b_r', (0, 2, 1), 'thorough', info, 3000)
     lock(ctx, 'C25_lock_b_b_b', (2, 2, 2), 'thorough', info, 3000)
     ctx.assumptions += ['sequential consistency (no weak-memory effects)', 'send_process abstracted to the witness: its sequential correctness is C16/C17',
@@ -43,6 +67,6 @@ def run(ctx):
 def replay(ctx, cx, h=None):
     """native witness: N threads hammer the real FIXWriter::write/write_batch (libfix8, pm_thread) whose Session::send_process is interposed by the same
     non-atomic witness; a lost update / overlap observed natively reproduces the violation (schedule dependent: bounded retries, never a false alarm)"""
-    exe = ctx.native('c25replay', ['replay/c25_replay.cpp'], flags=('-O1', '-g', '-fno-access-control'), libs=['-L' + REPO + '/runtime/.libs', '-lfix8', '-Wl,-rpath,' + REPO + '/runtime/.libs'])
-    r = sh([exe])
+    exe = ctx.native('c25replay', ['replay/c25_replay.cpp'], flags=('-O1', '-g', '-fno-access-control'), libs=['-L' + REPO + '/runtime/.libs', '-lfix8', '-L' + REPO + '/utests/.libs', '-lutest', '-Wl,-rpath,' + REPO + '/runtime/.libs', '-Wl,-rpath,' + REPO + '/utests/.libs'])
+    r = sh([exe], cwd=ctx.work)
     return r.returncode != 0, r.stdout.strip()[-400:].replace('\n', ' | ')
